@@ -9,6 +9,7 @@
   generated order and kind, also after clone, clone_from and serde round trips).
 -/
 import BroodModel.World
+import BroodModel.Lemmas.RoundTrip
 
 namespace Brood
 open World
@@ -145,6 +146,81 @@ theorem C15_write_frame {w w' : World} {id : Ident} {c : Nat} {v : Val} {r : Opt
     | (simp at e; obtain ⟨rfl, _⟩ := e; simp [World.setArch])
     | (simp at e; subst e; rfl))
 
+/-- `Entry::add` never touches a resource (overwrite in place, or the row moved to another table). -/
+theorem C15_entry_add_frame {w w' : World} {id : Ident} {c : Nat} {v : Val} {r : Option (List Val)}
+    (e : w.entryAdd id c v = .ok (w', r)) : w'.res = w.res := by
+  unfold World.entryAdd at e
+  cases hg : w.alloc.get id with
+  | none => simp [hg] at e; obtain ⟨rfl, _⟩ := e; rfl
+  | some loc =>
+    simp only [hg] at e
+    cases hga : w.getArch loc.arch with
+    | ub x => simp [hga] at e
+    | ok a =>
+      simp only [hga] at e
+      by_cases hc : a.mask.has c
+      · simp only [hc, if_true] at e
+        repeat' (split at e)
+        all_goals (first
+          | (simp at e; done)
+          | (simp at e; obtain ⟨rfl, _⟩ := e; rfl))
+      · simp only [hc, Bool.false_eq_true, if_false] at e
+        cases ht : w.takeRowAt loc.arch loc.row with
+        | ub x => simp [ht] at e
+        | ok p =>
+          obtain ⟨w1, vs, eid⟩ := p
+          simp only [ht] at e
+          cases hm : w1.archForMask (setBit a.mask c true) with
+          | ub x => simp [hm] at e
+          | ok q =>
+            obtain ⟨w2, h'⟩ := q
+            simp only [hm] at e
+            repeat' (split at e)
+            all_goals (first
+              | (simp at e; done)
+              | (simp at e; obtain ⟨rfl, _⟩ := e
+                 show w2.res = w.res
+                 rw [archForMask_res hm, takeRowAt_res ht]))
+
+/-- `Entry::remove` never touches a resource. -/
+theorem C15_entry_remove_frame {w w' : World} {id : Ident} {c : Nat} {r : Option (List Val)}
+    (e : w.entryRemove id c = .ok (w', r)) : w'.res = w.res := by
+  unfold World.entryRemove at e
+  cases hg : w.alloc.get id with
+  | none => simp [hg] at e; obtain ⟨rfl, _⟩ := e; rfl
+  | some loc =>
+    simp only [hg] at e
+    cases hga : w.getArch loc.arch with
+    | ub x => simp [hga] at e
+    | ok a =>
+      simp only [hga] at e
+      by_cases hc : a.mask.has c
+      · simp only [hc, if_true] at e
+        cases ht : w.takeRowAt loc.arch loc.row with
+        | ub x => simp [ht] at e
+        | ok p =>
+          obtain ⟨w1, vs, eid⟩ := p
+          simp only [ht] at e
+          cases hm : w1.archForMask (setBit a.mask c false) with
+          | ub x => simp [hm] at e
+          | ok q =>
+            obtain ⟨w2, h'⟩ := q
+            simp only [hm] at e
+            repeat' (split at e)
+            all_goals (first
+              | (simp at e; done)
+              | (simp at e; obtain ⟨rfl, _⟩ := e
+                 show w2.res = w.res
+                 rw [archForMask_res hm, takeRowAt_res ht]))
+      · simp [hc] at e; obtain ⟨rfl, _⟩ := e; rfl
+
+/-- A serde round trip reproduces every resource (same type, same base identity), in order. -/
+theorem C15_roundtrip_res {w : World} (hi : Inv w) (hres : Serde.ResOk w) (k : Kinds) (hr : Bool) (e next : Nat) :
+    ∃ w', Serde.deserialize k hr w.n w.res.length e next (Serde.serialize hr w) = .ok w' ∧
+      w'.res = w.res.map (Serde.retag k e) := by
+  obtain ⟨al, _, hde⟩ := Serde.roundtrip_ok hi hres k hr e next
+  exact ⟨_, hde, rfl⟩
+
 /-- `clone` copies the resources value for value (fresh identities, same base identities). -/
 theorem C15_clone_res {w c : World} {e next : Nat} (h : w.clone e next = .ok c) :
     c.res = w.res.map (cloneVal e) ∧ c.res.length = w.res.length := by
@@ -187,6 +263,9 @@ end Brood
 #print axioms Brood.C15_reserve_frame
 #print axioms Brood.C15_shrink_frame
 #print axioms Brood.C15_write_frame
+#print axioms Brood.C15_entry_add_frame
+#print axioms Brood.C15_entry_remove_frame
+#print axioms Brood.C15_roundtrip_res
 #print axioms Brood.C15_clone_res
 #print axioms Brood.C15_cloneFrom_res
 #print axioms Brood.cloneVal_eqv
